@@ -300,6 +300,11 @@ def jobs(tier):
                     continue
                 out.append(job("C01", f"convert[{fmt},{shells},{conv}]", M, "h_convert", dict(fmt=fmt, shells=shells, conv=conv),
                                budget_s=300 if tier == "quick" else 2400, max_validate=2, oblige_timeout_ms=30000))
+        if tier == "quick" and fmt in ("wfn", "wfx", "molden", "fchk"):
+            # Cartesian f functions (the formats disagree on their order) with the target's own and with HORTON2 conventions
+            for conv in ("own", "horton2"):
+                out.append(job("C01", f"convert[{fmt},fcart,{conv}]", M, "h_convert", dict(fmt=fmt, shells="fcart", conv=conv),
+                               budget_s=300, max_validate=2, oblige_timeout_ms=30000))
         out.append(job("C01", f"convert[{fmt},sp,own,ecp]", M, "h_convert", dict(fmt=fmt, shells="sp", conv="own", ecp=True),
                        budget_s=300, max_validate=2))
     if tier == "thorough":
